@@ -110,6 +110,71 @@ CLAIMS.update({
         technique="VC generation from the real AST; option values symbolic in every obligation; z3",
     ),
 })
+CLAIMS.update({
+    "C03": dict(
+        category="proof",
+        text=("Three layers over the REAL tables loaded on each run. L1: _set_attribute_single is verified once per data field and nesting "
+              "depth (523 instances; symbolic offset, indices and payload bits) against the typed decode (unsigned / two's complement / "
+              "sign-magnitude / character, times resolution) of exactly its own bits, with the attribute named by two-digit indices and "
+              "nothing else written. L2: the recursive walk is verified per concrete table node against the reference layout "
+              "interpreter R (loop invariants over Iter: unbounded repeat counts, nested and conditional groups, '+n' counters, IDF035+1). "
+              "L3: _do_attributes per identity. MSM maps and data-dependent sizes by their own contracts (C09)."),
+        design_ref="DESIGN.md 5/C03",
+        note=BASE_TRUST + "Float multiply by the resolution is uninterpreted (rounding not proved). The leaf transformer is uninterpreted in L2/L3; "
+             "composition of the layers is by modularity. NUL code units of STR fields unconstrained.",
+        technique="VC generation from the real AST per table entry; bit-list payload model; UF reference interpreter with loop invariants; z3",
+    ),
+    "C06": dict(
+        category="proof",
+        text=("Main clause proved: for every data field, a normal return of the leaf implies offset+width <= 8*len(payload) and the value is "
+              "built only from payload bits below that bound; a field that does not fit makes the leaf, the walk and the constructor fail "
+              "with the library's error; __init__ fixes the bit length and the payload integer. The 'in particular' truncation clause is "
+              "argued from those contracts (prefix determinism) and backed by a BOUNDED stand-in - every whole-byte truncation of generated "
+              "complete messages of all 152 types - which is labelled bounded in evidence and not counted as proved."),
+        design_ref="DESIGN.md 5/C06",
+        note=BASE_TRUST + "Prefix-determinism lemma not mechanised (bounded stand-in instead).",
+        technique="VC generation from the real AST (exceptional postconditions of the leaf per data field) + labelled bounded truncation sweep",
+    ),
+    "C09": dict(
+        category="proof",
+        text=("_getsatcellmaps is verified for each constellation with symbolic 64-bit satellite mask, 32-bit signal mask, cell mask of "
+              "symbolic width and both label options: the maps equal prefix-indexed fold specifications (no bound on NSat*NSig; non-linear "
+              "satellite-major indexing discharged by z3), and the folds are proved by induction to put the k-th set bit's label at key k. "
+              "Counts are popcounts (leaf contracts); PRN/signal tables equal the pinned RTCM 10403.3 tables; reserved IDs give 'N/A'."),
+        design_ref="DESIGN.md 5/C09",
+        note=BASE_TRUST + "Pinned tables are the author's transcription of the standard (spec/pinned.py).",
+        technique="VC generation from the real AST; checkpointed unrolling + loop invariants over fold spec functions; induction lemmas; z3",
+    ),
+    "C10": dict(
+        category="proof",
+        text=("Closed obligations over the real tables, discharged by evaluation with the failing entry as counterexample: well-formedness "
+              "of all 152 definitions (fields defined, counts/conditions decoded earlier), structural equality of every layout's header / "
+              "per-block / per-inner-block bits with the pinned standard formula (hence for all repeat counts), sibling field-sequence "
+              "relations (SSR combined = orbit ++ clock for GPS, GLONASS and six IGS constellations; extended contains basic; one MSM layout "
+              "per level), MSM tables; plus dispatch for every identity and the walk / size-determining leaf contracts."),
+        design_ref="DESIGN.md 5/C10",
+        note=BASE_TRUST + "Pinned formulas: author's transcription; 31 identities marked tree@framework-build-time (no offline source).",
+        technique="ground evaluation of closed table obligations against pinned standard data + VC generation for dispatch and walk",
+    ),
+    "C16": dict(
+        category="proof",
+        text=("Read-set obligation (the label option is read at exactly one site, to choose the tuple slot of the signal label) + the "
+              "contract of _getsatcellmaps, in which the option parameterises the signal-label fold only + pass-through obligations of "
+              "__init__, parse and _parse_rtcm3 + ground lemma that non-MSM definitions contain no derived-label fields."),
+        design_ref="DESIGN.md 5/C16",
+        note=BASE_TRUST + "The two-run relational conclusion is the corollary of these single-run contracts.",
+        technique="syntactic read-set scan + VC generation from the real AST with the option symbolic; z3",
+    ),
+    "C19": dict(
+        category="proof",
+        text=("att2idx, att2name and datadesc are symbolically executed on base + '_%02d' per nesting level with symbolic indices >= 1 "
+              "(two- and three-digit alike) for every (field, depth) that occurs in the real tables - IGS IDF fields, derived PRN/cell "
+              "labels and sub-numbered fields included."),
+        design_ref="DESIGN.md 5/C19",
+        note=BASE_TRUST + "String operations are computed on segment lists under the ground-checked facts about '%02d'.",
+        technique="VC generation from the real AST over structured symbolic strings, per table entry",
+    ),
+})
 REASONS = {}
 
 checks = []
